@@ -191,6 +191,9 @@ func (s Server) Serve(c context.Context, conn network.Conn) (err error) {
 
 	connRequestNum := uint64(0)
 
+	// asked by writers that send the response head on their own while the handler runs
+	closeProbe := func() bool { return connectionClose || !s.Core.IsRunning() }
+
 	for {
 		connRequestNum++
 		senseConnClose := configuredSenseConnClose // use to check if senseConnClose logic should be triggered for each request
@@ -356,7 +359,9 @@ func (s Server) Serve(c context.Context, conn network.Conn) (err error) {
 		//
 		// NOTE: All middlewares and business handler will be executed in this. And at this point, the request has been parsed
 		// and the route has been matched.
+		ctx.Response.SetCloseProbe(closeProbe)
 		s.Core.ServeHTTP(cc, ctx)
+		ctx.Response.SetCloseProbe(nil)
 		if s.EnableTrace {
 			// application layer handle finished
 			if last := eventsToTrigger.pop(); last != nil {
